@@ -2266,7 +2266,9 @@ class Interp:
                 nonword = regex_to_z3(r"[^a-zA-Z0-9_]")
                 rx = z3.Concat(rx, z3.Union(z3.Re(""), z3.Concat(nonword, anyc)))
                 if name == "re.match":
-                    return ReMatch(z3.InRe(strterm(s), rx)) if not isinstance(s, str) else (getattr(_re2, "match")(pat + r"\b", s) is not None)
+                    if isinstance(s, str):
+                        return ReMatch(z3.BoolVal(True)) if getattr(_re2, "match")(pat + r"\b", s) is not None else None
+                    return ReMatch(z3.InRe(strterm(s), rx))
                 raise Unsupported("\\b outside re.match")
             if name == "re.match":
                 rx = rx if a_end else z3.Concat(rx, anyc)
@@ -2274,7 +2276,8 @@ class Interp:
                 rx = z3.Concat(*([] if a_start else [anyc]) + [rx] + ([] if a_end else [anyc])) if not (a_start and a_end) else rx
             if isinstance(s, str):
                 import re as _re
-                return getattr(_re, name[3:])(pat, s) is not None
+                # a match object (truthy, `is not None`) or None, as in Python
+                return ReMatch(z3.BoolVal(True)) if getattr(_re, name[3:])(pat, s) is not None else None
             return ReMatch(z3.InRe(strterm(s), rx))
         if name == "re.sub":
             pat, repl, subj = args[0], args[1], args[2]
